@@ -5,7 +5,7 @@ from ordered_set import OrderedSet
 from xdsl.builder import Builder
 from xdsl.context import Context
 from xdsl.dialects import builtin, x86, x86_func
-from xdsl.dialects.builtin import IntegerAttr
+from xdsl.dialects.builtin import IntAttr, IntegerAttr
 from xdsl.dialects.x86.registers import (
     R12,
     R13,
@@ -15,6 +15,7 @@ from xdsl.dialects.x86.registers import (
     RBX,
     RSP,
     GeneralRegisterType,
+    Reg64Type,
 )
 from xdsl.passes import ModulePass
 from xdsl.rewriter import InsertPoint
@@ -24,6 +25,12 @@ X86_CALLEE_SAVED_REGISTERS = [RBX, RBP, R12, R13, R14, R15]
 Registers that should be the same after the called function returns to the caller, see
 [external documentation](https://refspecs.linuxbase.org/elf/x86_64-abi-0.21.pdf).
 """
+
+_CALLEE_SAVED_INDICES = frozenset(
+    reg.index.data
+    for reg in X86_CALLEE_SAVED_REGISTERS
+    if isinstance(reg.index, IntAttr)
+)
 
 
 @dataclass(frozen=True)
@@ -53,13 +60,16 @@ class X86PrologueEpilogueInsertion(ModulePass):
                     )
 
     def _process_function(self, func: x86_func.FuncOp) -> None:
+        # Narrower names (ebx, r12d, r13w, bl, ...) alias the 64-bit callee-saved
+        # registers, compare by register index and save the full 64-bit register.
         used_callee_preserved_registers = OrderedSet(
-            res.type
+            Reg64Type.from_index(res.type.index.data)
             for op in func.walk()
             if not isinstance(op, x86.GetRegisterOp)
             for res in op.results
             if isinstance(res.type, GeneralRegisterType)
-            if res.type in X86_CALLEE_SAVED_REGISTERS
+            if isinstance(res.type.index, IntAttr)
+            if res.type.index.data in _CALLEE_SAVED_INDICES
         )
 
         if not used_callee_preserved_registers:
